@@ -1,6 +1,7 @@
 /-
   C15 — Casting to a (user-defined) tag type never yields a view larger than the tag.
 -/
+import Mb2.Props.FnsCast
 import Mb2.Props.FnsGetters
 import Mb2.Props.FnsDstMbi
 import Mb2.Tags
